@@ -53,18 +53,39 @@ pub struct RefQueue {
     pub next_avail: u16,
     /// The device's used index.
     pub used_idx: u16,
+    /// The value this device scribbled over the available index, if any (see `scribble_avail_idx`).
+    pub idx_decoy: Option<u16>,
 }
 
 impl RefQueue {
     pub fn new(n: u32, desc: u64, avail: u64, used: u64, indirect_ok: bool, event_idx: bool) -> Self {
-        RefQueue { n, desc, avail, used, indirect_ok, event_idx, next_avail: 0, used_idx: 0 }
+        RefQueue { n, desc, avail, used, indirect_ok, event_idx, next_avail: 0, used_idx: 0, idx_decoy: None }
     }
 
     pub fn avail_flags(&self, h: &HalState) -> Result<u16, String> {
         h.rd16(self.avail)
     }
     pub fn avail_idx(&self, h: &HalState) -> Result<u16, String> {
-        h.rd16(self.avail + 2)
+        let raw = h.rd16(self.avail + 2)?;
+        if Some(raw) == self.idx_decoy {
+            // still the value this (misbehaving) device wrote there itself: nothing new
+            return Ok(self.next_avail);
+        }
+        Ok(raw)
+    }
+    /// A misbehaving device overwrites the available index (which it must not write) once it has
+    /// fetched everything: with its own position minus one, a value the driver will not write
+    /// next. A driver that keeps its own copy simply stores the next index over it.
+    pub fn scribble_avail_idx(&mut self, h: &HalState) {
+        match h.rd16(self.avail + 2) {
+            Ok(raw) if raw == self.next_avail => {
+                let x = self.next_avail.wrapping_sub(1);
+                if h.poke(self.avail + 2, &x.to_le_bytes()).is_ok() {
+                    self.idx_decoy = Some(x);
+                }
+            }
+            _ => {}
+        }
     }
     pub fn avail_slot(&self, h: &HalState, i: u32) -> Result<u16, String> {
         h.rd16(self.avail + 4 + 2 * (i % self.n) as u64)
